@@ -10,7 +10,7 @@ fi
 PATCH=$(readlink -f "$1"); ID=$2; TIER=${3:-quick}
 unset RUSTFLAGS; export CARGO_NET_OFFLINE=true SOURCE_DATE_EPOCH=1700000000
 if [ ! -d $M-wt ]; then git -C /repo worktree add -q --detach $M-wt HEAD || exit 2; fi
-git -C $M-wt checkout -q --detach "$(git -C /repo rev-parse HEAD)" && git -C $M-wt checkout -q -- . && git -C $M-wt clean -fdq
+git -C $M-wt reset -q --hard && git -C $M-wt checkout -q --detach "$(git -C /repo rev-parse HEAD)" && git -C $M-wt clean -fdq
 if [ "$PATCH" != "/dev/null" ]; then git -C $M-wt apply "$PATCH" || { echo "patch does not apply"; exit 2; }; fi
 mkdir -p $M-harness $M-out
 rsync -a --delete --exclude Cargo.lock /verif/harness/ $M-harness/
